@@ -61,6 +61,11 @@ def build(case):
         P = X @ X.T
         P *= case["cpl"] * np.sqrt(np.outer(b[el] + 1e-3, b[el] + 1e-3)) / np.abs(P).max()
         B[np.ix_(el, el)] += P
+        if case.get("gyro"):
+            # gyroscopic (skew-symmetric) part: mass and stiffness stay symmetric, the damping matrix does not
+            Y = rng.standard_normal((len(el), len(el)))
+            G = Y - Y.T
+            B[np.ix_(el, el)] += case["gyro"] * np.abs(P).max() * G / max(np.abs(G).max(), 1e-300)
     nf = len(case["freq"])
     F = rng.integers(-4, 5, (n, nf)).astype(float)
     if case.get("cforce"):
@@ -249,6 +254,8 @@ def oracle(case, R):
     # be restored for the frequency-domain solve) and may already have solved a transient
     hstep = case.get("h")
     tsu = ode.SolveUnc(M_in, B_in, K_in, **kw) if hstep is None else ode.SolveUnc(M_in, B_in, K_in, hstep, **kw)
+    if case.get("gyro") and form == "nonprop" and len(S["el"]) >= 2:
+        R.label("damping:nonsymmetric")
     R.label("mass:int_dtype" if case.pop("_mass_label", "") == "int" else "mass:float")
     R.label("h=None" if hstep is None else "h_given")
     R.label("freq:two_sided" if np.any(freq < 0) else "freq:nonneg")
@@ -474,6 +481,7 @@ def freq_cases(draw, form, psd=False):
     case["ppack"] = draw(st.sampled_from(util.PART_FORMS))
     case["fscale"] = draw(st.sampled_from([1.0, 1.0, 1.0, 1e-12, 2.0 ** -30, 1e10]))
     case["mint"] = draw(st.booleans())
+    case["gyro"] = draw(st.sampled_from([0.0, 0.0, 0.5, 2.0]))
     if case["mint"]:
         for md in modes:
             if md["m"] == 0.5:
